@@ -263,7 +263,12 @@ func c07Exec(h *shG, sp c07Spec) c07Case {
 			p, r := mkPoly(coeffs), mkPoly(other)
 			sum, err := p.Add(r)
 			// Commit is additive: p.Commit(b).Add(r.Commit(b)) = (p+r).Commit(b)
-			cp, cr := p.Commit(baseP), r.Commit(baseP)
+			// the two commitments are made for the same base held in two objects (a base point is a value)
+			baseP2 := baseP
+			if baseP != nil {
+				baseP2 = baseP.Clone()
+			}
+			cp, cr := p.Commit(baseP), r.Commit(baseP2)
 			csum, err2 := cp.Add(cr)
 			if (err == nil) != (len(coeffs) == len(other)) || (err == nil) != (err2 == nil) {
 				cs.pred = "Add error does not coincide with a threshold mismatch"
@@ -283,6 +288,11 @@ func c07Exec(h *shG, sp c07Spec) c07Case {
 			}
 			if !csum.Equal(sum.Commit(baseP)) {
 				cs.pred = "Commit(p+r) != Commit(p)+Commit(r)"
+			}
+			for _, i := range []uint32{0, sp.I} {
+				if !csum.Check(sum.Eval(i)) {
+					cs.pred = fmt.Sprintf("the sum of two commitments to the same base rejects share %d of the sum polynomial", i)
+				}
 			}
 			cs.nt = len(coeffs) >= 1
 			return shScalarsOut(h, sum.Coefficients())
